@@ -17,6 +17,12 @@ from mc.refmodels.ctc import ctc_brute, ref_prefix_beam, lse, NEG
 
 ID = 'C02'
 
+def nabs(x):
+    """abs() for tolerance tests: a NaN counts as an infinite difference (a result that is not a number equals nothing)"""
+    x = abs(x)
+    return float('inf') if x != x else x
+
+
 MANIFEST = dict(
     technique='explicit-state enumeration of the CTC matrix input tree x beam width x selector; real decoder vs brute-force CTC sum and a reference prefix beam search that explores every tie resolution',
     text='Bounded exhaustive: every matrix with T <= 4 (quick) / 5 (thorough) rows over a 13-row alphabet (C=3; ties, zeros, one-hot rows, entries straddling the pre-selection threshold, all-pruned rows) and T <= 3/4 over 7 rows (C=4), for k in {1,2,3,4,100} and both selectors. Distinctness, the no-over-count bound and exactness are checked against the full alignment sum; the pruned result against a textbook prefix beam search with all boundary-tie resolutions; un-normalised variants must be rejected. Added sub-sweeps: float32 input, one decoder object re-used across lines (and still rejecting un-normalised input), a non-pruning selector returning unsorted indices, lines of 260-520 frames against the forward recursion (validated against enumeration in setup), and the three-symbol matrices embedded in a 33 000-symbol output layer. A third class count (C=5, T<=3/4): frames with more relevant symbols than the beam is wide next to blank-only frames.',
@@ -85,7 +91,7 @@ def setup(tier):
                 logP = [[float(x) for x in r] for r in np.log(np.asarray(P, dtype=float))]
             for lab, pr in ctc_brute(P, 2).items():
                 got = ctc_forward_log(logP, list(lab), 2)
-                if abs(got - math.log(pr)) > 1e-9:
+                if nabs(got - math.log(pr)) > 1e-9:
                     from mc.core import HarnessError
                     raise HarnessError(f'forward recursion disagrees with enumeration on {P} {lab}: {got} vs {math.log(pr)}')
 
@@ -219,7 +225,7 @@ def check_wide(case, ctx):
             return
         if k == 100 and all(min(x for x in r if x > 0) > 1e-3 for r in M3):
             got = dict(hyps)
-            if set(got) != set(truth) or any(abs(got[t] - truth[t]) > EPS for t in truth):
+            if set(got) != set(truth) or any(nabs(got[t] - truth[t]) > EPS for t in truth):
                 ctx.violation('exact-when-unpruned', f'{K}/unpruned-differs', f'{desc}; truth {sorted((name(t), round(v, 4)) for t, v in truth.items())}')
                 return
     ctx.outcome(('wide', len(truth)))
@@ -254,10 +260,10 @@ def check_long(case, ctx):
             return
         for t, v in hyps:
             true = truth(['ab'.index(c) for c in t])
-            if v > true + 1e-6:
+            if not (v <= true + 1e-6):
                 ctx.violation('never-over-counts', f'{K}/over-count', f'{desc}: {t[:12]!r}.. (length {len(t)}) scored {v}, true log-probability {true}')
                 return
-            if kind == 0 and abs(v - true) > 1e-6:
+            if kind == 0 and nabs(v - true) > 1e-6:
                 ctx.violation('exact-when-unpruned', f'{K}/unpruned-differs', f'{desc}: a^{len(t)} scored {v}, true log-probability {true}')
                 return
         if kind == 0:
@@ -410,7 +416,7 @@ def check_case(case, ctx):
             ctx.violation('distinct-transcripts', f'{K}/duplicate-transcripts',
                           f'k={k}: hypotheses {hyps} contain a transcript twice; matrix {M}', sub)
             continue
-        bad = [(t, s, truth_s.get(t, NEG)) for t, s in hyps if s > truth_s.get(t, NEG) + EPS]
+        bad = [(t, s, truth_s.get(t, NEG)) for t, s in hyps if not (s <= truth_s.get(t, NEG) + EPS)]
         if bad:
             ctx.violation('never-over-counts', f'{K}/over-count',
                           f'k={k}: (transcript, vis_sc, true CTC log-prob) = {bad}; matrix {M}', sub)
@@ -424,7 +430,7 @@ def check_case(case, ctx):
             got = dict(hyps)
             miss = [t for t in truth_s if t not in got]
             extra = [t for t in got if t not in truth_s]
-            off = [(t, got[t], truth_s[t]) for t in got if t in truth_s and abs(got[t] - truth_s[t]) > EPS]
+            off = [(t, got[t], truth_s[t]) for t in got if t in truth_s and nabs(got[t] - truth_s[t]) > EPS]
             if miss or extra or off:
                 ctx.violation('exact-when-unpruned', f'{K}/unpruned-{"missing" if miss else "extra" if extra else "score"}',
                               f'k={k}: nothing is pruned, yet missing={miss} extra={extra} wrong scores (t, got, true)={off}; '
@@ -462,7 +468,7 @@ def check_case(case, ctx):
         want_u = {''.join(ulet[i] for i in l): math.log(p) for l, p in ctc_brute(M, C - 1).items()}
         got_u = [(h.transcript, float(h.vis_sc)) for h in CTCPrefixLogRawNumpyDecoder(ulet, 100, relevant_logits_selector=select_all)(lp.copy())]
         ctx.executed()
-        if len({t for t, _ in got_u}) != len(got_u) or set(t for t, _ in got_u) != set(want_u) or any(abs(v - want_u[t]) > EPS for t, v in got_u):
+        if len({t for t, _ in got_u}) != len(got_u) or set(t for t, _ in got_u) != set(want_u) or any(nabs(v - want_u[t]) > EPS for t, v in got_u):
             ctx.violation('exact-when-unpruned', f'{ID}/C4/unicode-letter-table',
                           f'letters e / U+0301 / U+00E9: hypotheses {[(t.encode("unicode_escape").decode(), round(v, 4)) for t, v in got_u]}, '
                           f'truth {[(t.encode("unicode_escape").decode(), round(v, 4)) for t, v in sorted(want_u.items())]}; matrix {M}')
@@ -483,7 +489,7 @@ def check_case(case, ctx):
                 ctx.violation('equals-frame-synchronous-beam-search', f'{ID}/C{C}/same-decoder-second-call-differs',
                               f'k={k}: decoding the same matrix again with the same decoder object (another line in between) gives {again} instead of {r32}; matrix {M}')
                 break
-            if k == 100 and (set(dict(r32)) != set(r64) or any(abs(dict(r32)[t] - r64[t]) > 1e-4 for t in r64)):
+            if k == 100 and (set(dict(r32)) != set(r64) or any(nabs(dict(r32)[t] - r64[t]) > 1e-4 for t in r64)):
                 ctx.violation('exact-when-unpruned', f'{ID}/C{C}/float32-input-differs',
                               f'k={k}: float32 log-probabilities give {sorted(r32)}, float64 {sorted(r64.items())}; matrix {M}')
                 break
